@@ -26,6 +26,7 @@ type Engine struct {
 	loadS     float64
 	funcs     map[string]*ssa.Function // contract key -> function
 	sentinels map[string]int           // package-level error variables initialised by errors.New
+	implCache map[string][]*ssa.Function
 }
 
 var repoPkgs = []string{"./internal/state", "./internal/storage", "./internal/spynode", "./internal/handlers", "./pkg/client"}
@@ -38,7 +39,7 @@ func LoadEngine(repo string) (*Engine, error) {
 	if err != nil {
 		return nil, err
 	}
-	e := &Engine{repo: repo, pkgs: map[string]*packages.Package{}, spkgs: map[string]*ssa.Package{}, modsets: map[*ssa.Function]*ModSet{}, funcs: map[string]*ssa.Function{}}
+	e := &Engine{repo: repo, pkgs: map[string]*packages.Package{}, spkgs: map[string]*ssa.Package{}, modsets: map[*ssa.Function]*ModSet{}, funcs: map[string]*ssa.Function{}, implCache: map[string][]*ssa.Function{}}
 	var errs []string
 	packages.Visit(pkgs, nil, func(p *packages.Package) {
 		e.allPkgs = append(e.allPkgs, p)
